@@ -368,7 +368,8 @@ class convert_int_chunk_rank1_explicit:
         return True
 
     def ensures(result, shape, chunks):
-        return {"unchanged": S.seq_equal(S.item(result, 0), S.item(chunks, 0))}
+        return {"unchanged": S.seq_equal(S.item(result, 0), S.item(chunks, 0)),
+                "same-sum": S.ssum(S.item(result, 0)) == S.ssum(S.item(chunks, 0))}
 
 
 def _explicit(spec, extra_params):
